@@ -1,21 +1,33 @@
 """C04 — shape features equal their documented definitions (pipeline model; oracle against the ORIGINAL signal)."""
 from harness import pipeline
-from harness.pipeline import COQ_HEADER, COQ_RUNNER, COQ_TYPES, SHARD, coq_case, kind_of, TRUST
+from harness.pipeline import COQ_HEADER, COQ_RUNNER, COQ_TYPES, SHARD, coq_case, kind_of, extra_evidence, TRUST
 
 PROP = 'C04'
 PROPS_FILE = 'Props/C04.v'
-RULE = ('compute_features / compute_shape_features on generated signals, both centrings, with and without sample columns; '
-        'all 13 shape columns compared with the Coq model (bit-exact model, 1e-9 comparison) and with the documented '
-        'formulas evaluated on the original, un-negated signal; non-trivial = table with >= 3 rows')
-ASSUMPTIONS = ['signals finite', 'band_amp compared with tolerance (numpy pairwise summation)']
+RULE = ('(a) compute_features on generated signals (as C01: off-band / narrow / wide bands, non-integer fs, list / tuple '
+        'f_range, int64 / float32 samples), both centrings, 40 % of the cases also with return_samples=False: the 13 shape '
+        'columns of both tables checked against the documented formulas evaluated on the original, un-negated signal and on '
+        'the cyclepoints of the return_samples=True run; no sample_* column without samples. (b) compute_shape_features '
+        'called directly with n_cycles in {2, 3, 5} (default extrema filter when find_extrema_kwargs is None, length of the '
+        'band-amplitude filter; reference kernels with the same k), plus compute_symmetry(df_samples, sig) without the '
+        'optional durations and rename_extrema_df(..., return_samples=False) compared with the table at harness level. '
+        'All shape columns compared with the Coq model (bit-exact model, 1e-9 comparison; float32 cases oracle only at 1e-6; '
+        'shape-only tables through the same runner with an all-False detector mask). non-trivial = table with >= 3 rows')
+ASSUMPTIONS = ['signals finite', 'band_amp compared with tolerance (numpy pairwise summation)',
+               'float32 samples: voltage differences are correctly rounded single-precision results, compared at 1e-6']
 
 
 def cases(rng, tier):
     n = 140 if tier == 'quick' else 1400
-    return [pipeline.gen_case(rng, tier, methods=('cycles', 'cycles', 'amp'), fek_prob=0.5) for _ in range(n)]
+    m = 40 if tier == 'quick' else 400
+    out = [pipeline.gen_case(rng, tier, methods=('cycles', 'cycles', 'amp'), fek_prob=0.5, wide=True, f32=True, rs_prob=0.6)
+           for _ in range(n)]
+    out += [pipeline.gen_shape_case(rng, tier) for _ in range(m)]
+    return out
 
 
-run_impl = pipeline.run_pipe
+def run_impl(c):
+    return pipeline.run_shape(c) if c.get('shape_only') else pipeline.run_pipe(c)
 
 
 def oracle(c, o):
